@@ -36,6 +36,10 @@ pub struct LayerD {
     /// role Image: one sixel picture (width, height in pixels, RGBA bytes) instead of cells
     #[serde(default)]
     pub image: Option<(i32, i32, Vec<u8>)>,
+    /// the rows the layer stores beyond its last cell are dropped (`lines` ends after the last row that holds a cell; it is
+    /// empty for a layer without cells - what `Layer::clear` and the crop operations leave behind)
+    #[serde(default)]
+    pub rows_trimmed: bool,
 }
 
 impl LayerD {
@@ -57,6 +61,7 @@ impl LayerD {
             default_font_page: 0,
             cells: vec![],
             image: None,
+            rows_trimmed: false,
         }
     }
 }
@@ -198,6 +203,10 @@ pub fn build_layer(l: &LayerD) -> Layer {
         if let Some(ch) = char::from_u32(c.ch) {
             layer.set_char((c.x, c.y), AttributedChar::new(ch, make_attr(c.fg, c.bg, c.attr, c.fp)));
         }
+    }
+    if l.rows_trimmed {
+        let keep = l.cells.iter().filter(|c| c.x >= 0 && c.y >= 0 && c.x < l.w && c.y < l.h).map(|c| c.y + 1).max().unwrap_or(0) as usize;
+        layer.lines.truncate(keep);
     }
     // flags that make set_char a no-op come last
     layer.properties.is_visible = l.visible;
